@@ -68,7 +68,7 @@ def clause_need(cl, i):
     if cl["kind"] == "bool":
         return {"n": "bool", "state": ".s%d" % i, "neg": cl.get("neg", False)}
     state = {"elapsed": "elapsed", "recurred": "recurred"}.get(cl["kind"], ".s%d" % i)
-    goal = {"path": ".g%d" % i} if cl.get("indirect") else cl["goal"]
+    goal = {"path": ".g%d" % i} if cl.get("indirect") else ({"raw": cl["goal_raw"]} if cl.get("goal_raw") else cl["goal"])
     return P.cmp(state, cl["op"], goal, tol=cl.get("tol"), neg=cl.get("neg", False))
 
 
@@ -109,6 +109,10 @@ def gen_grid():
         for s in (True, False, 0, 1, 2, "true", ""):
             for op in ("==", "!="):
                 cases.append({"v0": s, "v1": None, "g": g, "clauses": [{"kind": "val", "op": op, "goal": g, "neg": False}]})
+                # the boolean literals in their other spellings (yes / no, any capitalisation)
+                for raw in (("True", "TRUE", "yes", "Yes") if g else ("False", "FALSE", "no", "No")):
+                    cases.append({"v0": s, "v1": None, "g": g,
+                                  "clauses": [{"kind": "val", "op": op, "goal": g, "goal_raw": raw, "neg": s == 2}]})
     # cross-type equality (equality otherwise)
     for s, g in (("abc", 3), (3, "abc"), ("3", 3), (3.0, 3), (0, False), ("", 0), (None, 0) if False else ("x", True)):
         for op in ("==", "!="):
